@@ -1022,7 +1022,9 @@ class Runner:
                 done = int(rep[1])
                 self.model_write(st, bytes(st.buf[:done]))
                 del st.buf[:done]
-                sim.ev("step", st.label(), "fwd", done, "full" if rep[2] == "1" else "")
+                o1 = st.objs.get(1)
+                sim.ev("step", st.label(), "fwd", "unmodelled" if (isinstance(o1, Pipe) and o1.opaque) else done,
+                       "full" if rep[2] == "1" else "")
                 if rep[2] == "1":
                     sim.probe("writer_blocked_on_full_pipe")
             elif rep[0] == "err":
@@ -1045,6 +1047,7 @@ class Runner:
                 ln = int(rep[1])
                 data = self.model_read(st, ln, rep[2])
                 st.read_total += ln
+                opaque_in = data is None
                 if step == "readk":
                     if data is None:
                         # content from a writer that is not modelled: whatever is forwarded is not modelled either
@@ -1052,7 +1055,8 @@ class Runner:
                         if isinstance(st.objs.get(1), Pipe):
                             st.objs[1].opaque = True
                     st.buf += data
-                sim.ev("step", st.label(), "read", ln)
+                # (what a builtin printed is not modelled; it may contain pids, so not even its length is logged)
+                sim.ev("step", st.label(), "read", "unmodelled" if opaque_in else ln)
             elif rep[0] == "eof":
                 self.model_eof(st)
                 st.eof = True
